@@ -22,6 +22,7 @@ type CheckSpec struct {
 	Outside     []string     `json:"outside_bounds"`
 	Assumptions []string     `json:"assumptions"`
 	Witnesses   []string     `json:"witnesses"` // "harness:reach-id" that must be reached
+	Prefixes    []string     `json:"prefixes"`  // assertion-id prefixes that belong to this property (empty = all)
 }
 
 type HarnessRun struct {
@@ -177,6 +178,7 @@ func checkCmd(args []string) int {
 
 	// ---- verdicts ----
 	violations := 0
+	cexN := 0
 	knownHits := map[string]bool{}
 	var samples []any
 	var vioOut []string
@@ -204,7 +206,7 @@ func checkCmd(args []string) int {
 			inconclusive = append(inconclusive, tag+": "+e)
 		}
 		for oid, o := range ex.Obls {
-			if o.Unknown > 0 {
+			if o.Unknown > 0 && ownsAssertion(spec.Prefixes, oid) {
 				inconclusive = append(inconclusive, fmt.Sprintf("%s: obligation %s: %d query(ies) undecided (unknown/timeout)", tag, oid, o.Unknown))
 			}
 		}
@@ -212,7 +214,18 @@ func checkCmd(args []string) int {
 			inconclusive = append(inconclusive, tag+": no path reached the end of the harness")
 		}
 		for _, v := range ex.Viol {
-			cex := filepath.Join(outDir, fmt.Sprintf("cex_%s_%s_%d.json", rr.Run.Fn, sanitizeFile(v.ID), len(vioOut)))
+			if !ownsAssertion(spec.Prefixes, v.ID) {
+				fmt.Printf("  (counterexample for %s belongs to another property's check; not judged here)\n", v.ID)
+				continue
+			}
+			if strings.HasPrefix(v.ID, "aux.") {
+				// a representation invariant used only as induction hypothesis no longer holds on
+				// this tree: the inductive argument does not go through (neither pass nor alarm)
+				inconclusive = append(inconclusive, fmt.Sprintf("%s: auxiliary invariant %s fails (%s): the induction does not go through on this tree", tag, v.ID, v.Where))
+				continue
+			}
+			cexN++
+			cex := filepath.Join(outDir, fmt.Sprintf("cex_%s_%s_%d.json", rr.Run.Fn, sanitizeFile(v.ID), cexN))
 			writeCex(cex, id, rr.Run, v)
 			// known finding?
 			kf := matchKnown(known, id, rr.Run.Fn, v)
@@ -284,6 +297,18 @@ func checkCmd(args []string) int {
 	return 0
 }
 
+func ownsAssertion(prefixes []string, id string) bool {
+	if len(prefixes) == 0 {
+		return true
+	}
+	for _, p := range prefixes {
+		if strings.HasPrefix(id, p) {
+			return true
+		}
+	}
+	return false
+}
+
 func envOr(k, d string) string {
 	if v := os.Getenv(k); v != "" {
 		return v
@@ -347,7 +372,7 @@ func matchKnown(known []KnownFinding, prop, harness string, v *sym.Violation) *K
 
 func writeCex(path, prop string, r HarnessRun, v *sym.Violation) {
 	m := map[string]any{"property": prop, "harness": r.Fn, "pkg": r.Pkg, "arch": r.Arch, "params": r.Params, "assertion": v.ID, "message": v.Msg,
-		"where": v.Where, "model": v.Model, "decisions": v.Trace, "schedule": v.Sched, "notes": v.Notes, "uf": v.UF, "choices": v.Choices}
+		"where": v.Where, "model": v.Model, "decisions": v.Trace, "schedule": v.Sched, "notes": v.Notes, "uf": v.UF, "choices": v.Choices, "known": v.KnownOn}
 	b, _ := json.MarshalIndent(m, "", " ")
 	os.WriteFile(path, b, 0o644)
 }
